@@ -990,8 +990,12 @@ void body()
     sink.count("file_operations_recorded", L.rec.mutIdx.size());
     sink.count("max_history_file_operations", L.rec.mutIdx.size());
     sink.count("crash_points_last_call", L.points.size());
+    uint64_t n = 0;
+    for (char ch : h)
+      for (int i = 0; i < NOPS; ++i)
+        if (OPS[i].code == ch)
+          n = n * uint64_t(NOPS + 1) + uint64_t(i + 1);
     lockG();
-    uint64_t n = G->samplesSeen++;
     if (n % 53 == 0 && n / 53 < 8)
       snprintf(G->samples[n / 53], sizeof G->samples[0], "json h=%s :: [%s] file-ops=%zu crash-points(last call)=%zu", h.empty() ? "-" : h.c_str(),
                histName(h).c_str(), L.rec.mutIdx.size(), L.points.size());
